@@ -56,7 +56,7 @@ def validate(ctx, module, traces, cfg="SPECIFICATION Spec\nCONSTRAINT Progress\n
         res.maxl = [int(b) for a, b in re.findall(r"(\d+) :> (\d+)", body)]
     if len(res.maxl) != len(traces):
         raise tlcmod.MachineryError("MAXL report has %d entries for %d traces" % (len(res.maxl), len(traces)))
-    for mm in re.finditer(r'<<"PROPFAIL", (\d+), (\d+), "([^"]*)">>', r.out):
+    for mm in re.finditer(r'<<\s*"PROPFAIL",\s*(\d+),\s*(\d+),\s*"([^"]*)"\s*>>', r.out, re.S):
         t = (int(mm.group(1)) - 1, int(mm.group(2)), mm.group(3))
         if t not in res.propfail:
             res.propfail.append(t)
